@@ -94,6 +94,8 @@ def with_current_api(rng, cases, share=0.45):
                         toks.insert(rng.randint(0, len(toks)), "c")
                 if kind == "det" and rng.random() < 0.4:
                     kind = rng.choice(["detL", "detF", "detG"])
+                if kind == "fn" and rng.random() < 0.5:      # function returning void / large closure / throwing function
+                    kind = "fn" + rng.choice(["T", "T", "V", "VT", "L", "LT", "VL", "VLT"])
                 ops[k] = kind + (":" + "".join(toks) if toks else "")
             if rng.random() < 0.25:
                 ops.insert(rng.randint(0, len(ops)), rng.choice(["curq", "cura", "curc"]))
@@ -283,7 +285,7 @@ def parse(case, out):
     nw = int(hdr[3])
     nc = sum(1 for l in case["lines"] if l.split()[0] == "c")
     has_b = "B" in hdr[4:]
-    info = {"nw": nw, "nt": nw + nc + (1 if has_b else 0), "hasB": has_b, "bw": nw if has_b else None, "b_events": [], "cur_events": [], "function_bad": None, "closures_live": 0, "jobs": {}, "events": [], "quiescent": False, "crash": None, "assert": None,
+    info = {"nw": nw, "nt": nw + nc + (1 if has_b else 0), "hasB": has_b, "bw": nw if has_b else None, "b_events": [], "cur_events": [], "function_bad": None, "throws": set(), "closures_live": 0, "jobs": {}, "events": [], "quiescent": False, "crash": None, "assert": None,
             "threads": None, "final": {}, "pool": None, "fin": set(), "ops": [], "last": {}}
     for idx, l in enumerate(out):
         w = l.split()
@@ -293,7 +295,9 @@ def parse(case, out):
             j = int(w[1][1:])
             info["jobs"][j] = {"kind": w[2], "by": int(w[3][1:]), "exit": w[4] == "exit=1", "runs": [], "cancels": [], "values": [], "at": idx}
             info["events"].append(("submit", j, idx))
-        elif w[0] in ("run", "cancel", "value"):
+        elif w[0] == "throw":
+            info["throws"].add(int(w[1][1:]))
+        elif w[0] in ("run", "cancel", "value", "exc"):
             j = int(w[1][1:])
             t = int(w[2][1:])
             jb = info["jobs"].setdefault(j, {"kind": "?", "by": -1, "exit": False, "runs": [], "cancels": [], "values": [], "at": idx})
@@ -303,6 +307,8 @@ def parse(case, out):
                 jb["cancels"].append((t, idx))
             else:
                 jb["values"].append((t, idx))
+                if w[0] == "exc":
+                    jb["excs"] = jb.get("excs", 0) + 1
         elif w[0] in ("stop-begin", "stop-end", "destroy-begin", "destroyed", "destroy-skip"):
             info["events"].append((w[0], int(w[1][1:]), idx))
         elif w[0] in ("stopB-begin", "stopB-end", "destroyB-begin", "destroyedB", "destroyB-skip"):
@@ -513,7 +519,11 @@ class PoolSuite(Suite):
             elif not begins and not jb["runs"]:
                 msgs.append("forgotten-idle: job j%d (%s) did not run" % (j, kd))
             if kd in ("fn", "ra") and fate == 1 and not (user_wait and fin.get("fut") == "pending"):
-                want = "value" if jb["runs"] else "broken"
+                want = ("exc" if j in i["throws"] else "value") if jb["runs"] else "broken"
+                if jb["runs"] and j in i["throws"] and jb.get("excs", 0) != len(jb["values"]):
+                    msgs.append("future: job j%d (%s) threw but its future was seen with a value, not with the exception" % (j, kd))
+                if jb["runs"] and j not in i["throws"] and jb.get("excs", 0):
+                    msgs.append("future: job j%d (%s) did not throw but its future holds an exception" % (j, kd))
                 if fin.get("fut") != want:
                     msgs.append("future: job j%d (%s) %s but its future is %s" % (j, kd, "ran" if jb["runs"] else "was cancelled", fin.get("fut")))
                 if jb["runs"] and len(jb["values"]) != 1:
@@ -535,7 +545,8 @@ class PoolSuite(Suite):
               "user_deadlock_ends": 0, "dependent_pairs": 0,
               "cv_entry_yield_cases": 0, "current_is_stopped": 0, "current_any_enqueued": 0, "current_co_await_inline": 0,
               "current_co_await_resubmitted": 0, "current_api_from_non_worker": 0, "closures_large_heap": 0,
-              "closures_via_caller_function": 0, "lock_blocks": 0, "two_pool_cases": 0, "other_pool_stops": 0, "other_pool_destroys": 0}
+              "closures_via_caller_function": 0, "fn_throwing": 0, "fn_threw_and_reported": 0, "fn_throwing_cancelled": 0,
+              "fn_void": 0, "fn_large_closure": 0, "lock_blocks": 0, "two_pool_cases": 0, "other_pool_stops": 0, "other_pool_destroys": 0}
         for c in cases:
             o = outs.get(str(c["id"]), [])
             try:
@@ -580,6 +591,11 @@ class PoolSuite(Suite):
             st["current_api_from_non_worker"] += sum(1 for k, t, r, idx in i["cur_events"] if t >= i["nw"])
             st["current_co_await_resubmitted"] += sum(1 for j, jb in i["jobs"].items() if jb["kind"] == "co" and jb["by"] < i["nw"])
             words = [w for l in c["lines"] if l.startswith("c ") for w in l.split()[1:]]
+            fnw = [w.split(":")[0][2:] for w in words if w.startswith("fn")]
+            st["fn_throwing"] += sum(1 for f in fnw if "T" in f)
+            st["fn_void"] += sum(1 for f in fnw if "V" in f)
+            st["fn_large_closure"] += sum(1 for f in fnw if "L" in f)
+            st["fn_threw_and_reported"] += sum(1 for j, jb in i["jobs"].items() if j in i["throws"] and jb.get("excs", 0))
             st["closures_large_heap"] += sum(1 for w in words if w.split(":")[0] in ("detL", "detG"))
             st["closures_via_caller_function"] += sum(1 for w in words if w.split(":")[0] in ("detF", "detG"))
             st["cv_entry_yield_cases"] += 1 if "cvy" in c["lines"][0].split()[4:] else 0
